@@ -282,6 +282,27 @@ func main() {
 		s := mkSpec(ecInt, crlgen.AlgFor(noSKISigner.Key), "absent", 2)
 		return s.Build(noSKISigner.Key).DER, ecInt, []*pki.CA{root}
 	}})
+	// AKI in the issuer+serial form that does not identify the signer: the serial equals the serial of a
+	// CA in the chain (the root), the authorityCertIssuer is not that CA's issuer (a URI / a DNS name /
+	// another directory name / absent). Signed by the root's key under the issuing CA's name.
+	for _, form := range []string{"uri-issuer", "dns-issuer", "other-directory-name", "serial-only"} {
+		form := form
+		scs = append(scs, signerCase{"signer-selected-by-serial-only.aki-" + form, "CRL under the issuing CA's name signed by the root, AKI = serial of the root + authorityCertIssuer form " + form, func() ([]byte, *pki.CA, []*pki.CA) {
+			s := mkSpec(ecInt, crlgen.AlgFor(root.Key), "absent", 2)
+			var parts [][]byte
+			switch form {
+			case "uri-issuer":
+				parts = append(parts, der.TLV(0xa1, der.ImplicitPrim(6, []byte("http://ca.example.org/root"))))
+			case "dns-issuer":
+				parts = append(parts, der.TLV(0xa1, der.ImplicitPrim(2, []byte("ca.example.org"))))
+			case "other-directory-name":
+				parts = append(parts, der.TLV(0xa1, der.TLV(0xa4, ecInt.Cert.RawSubject)))
+			}
+			parts = append(parts, der.ImplicitPrim(2, der.IntContent(root.Cert.SerialNumber)))
+			s.Exts = [][]byte{der.Ext("2.5.29.35", false, der.Seq(parts...)), crlgen.CRLNumberExt(big.NewInt(4))}
+			return s.Build(root.Key).DER, ecInt, []*pki.CA{root}
+		}})
+	}
 	for i, sc := range scs {
 		if i%sn != si {
 			continue
